@@ -32,15 +32,35 @@ def state_obligations(repo):
     """`self.attr = <expr>` inside an evaluation method: allowed only when <expr> is the same attribute (identity
     rebinding, e.g. cast(T, self._covariance_mat)); anything else makes a later evaluation depend on an earlier one."""
     groups = []
+    mutators = {"append", "extend", "insert", "update", "setdefault", "add", "pop", "popitem", "clear", "remove",
+                "discard", "sort", "reverse", "fill", "resize", "put"}
     for cname, ci in sorted(repo.classes.items()):
         if not repo.is_subclass(cname, "BaseLoss"):
             continue
-        for m in EVAL_METHODS:
-            fn = ci.methods.get(m)
-            if fn is None:
+        # the evaluation methods of this class plus every method OF THIS CLASS they reach through self.<m>(...) calls
+        todo = [m for m in EVAL_METHODS if m in ci.methods]
+        reached = []
+        while todo:
+            m = todo.pop(0)
+            if m in reached:
                 continue
+            reached.append(m)
+            for node in ast.walk(ci.methods[m]):
+                if isinstance(node, ast.Call) and isinstance(node.func, ast.Attribute) and \
+                        isinstance(node.func.value, ast.Name) and node.func.value.id == "self" and \
+                        node.func.attr in ci.methods and node.func.attr not in reached:
+                    todo.append(node.func.attr)
+        for m in reached:
+            fn = ci.methods.get(m)
             bad, n = [], 0
             for node in ast.walk(fn):
+                # containers held on self that are mutated in place: self.cache[k] = v is handled below; here
+                # self.cache.update(...) / .append(...) / .setdefault(...)
+                if isinstance(node, ast.Call) and isinstance(node.func, ast.Attribute) and node.func.attr in mutators and \
+                        isinstance(node.func.value, ast.Attribute) and isinstance(node.func.value.value, ast.Name) and \
+                        node.func.value.value.id == "self":
+                    n += 1
+                    bad.append({"line": node.lineno, "store": ast.unparse(node)[:100]})
                 targets = []
                 if isinstance(node, ast.Assign):
                     targets = node.targets
